@@ -15,7 +15,7 @@ from .. import gen_schema_full as G
 
 PROP = "C13"
 THEOREMS = ["C13_subtype", "C13_signature", "C13_memo", "C13_perm", "C13_verdict", "C13_all_reported_partial",
-            "C13_all_reported"]
+            "C13_all_reported", "C13_structural_mode"]
 AXIOMS_OK = []
 RUN_MODULE = "Run.C13run Schema.SchemaFull Schema.SchemaValidateModel Spec.SchemaValidSpec"
 AGREE = "agree_C13"
@@ -29,7 +29,7 @@ LEVEL_NOTE = ("Theorems are about the Gallina model Schema/SchemaValidateModel.v
               "inspect.signature is trusted to describe a callable; assignment to Schema.default_resolver "
               "is a history operation (it resets the memo after fix C13-05).")
 RULE = ("valid generated schemas over all six kinds (code- and SDL-built, wrappers to depth 3) with 0-4 "
-        "labelled rule violations from 33 invalidators, type-order permutations, resolvers from the "
+        "labelled rule violations from 33 invalidators, each schema validated in default and in structural mode,  type-order permutations, resolvers from the "
         "signature grid on fields / object defaults; register/validate histories incl. direct "
         "validate_schema calls with enable_resolver_validation on and off; is_subtype on all type "
         "pairs of bounded depth over a 7-type schema; resolver signatures x argument sets with every "
@@ -96,10 +96,10 @@ def _errors(errs):
     return sorted(label_of(str(e)) for e in errs)
 
 
-def _validate(sch):
+def _validate(sch, **kw):
     """(observable of validate_schema on the current state)"""
     try:
-        validate_schema(sch)
+        validate_schema(sch, **kw)
         return {"accept": True}
     except SchemaValidationError as e:
         return {"errors": _errors(e.errors)}
@@ -470,7 +470,11 @@ def _call_shapes(args):
 def run_impl(case):
     k = case["kind"]
     if k == "schema":
-        return _validate(G.build(case["spec"]))
+        sch = G.build(case["spec"])
+        obs = _validate(sch)
+        # the same schema in structural mode (everything but the resolver signatures)
+        obs["structural"] = _validate(sch, enable_resolver_validation=False)
+        return obs
     if k == "history":
         sch = G.build(case["spec"])
         return {"steps": [_apply_op(sch, op) for op in case["ops"]]}
@@ -546,7 +550,7 @@ def _cobs(obs):
 def to_coq(case, obs):
     k = case["kind"]
     if k == "schema":
-        return "(CaseSchema %s %s)" % (G.cschema(G.build(case["spec"])), _cobs(obs))
+        return "(CaseSchema %s %s %s)" % (G.cschema(G.build(case["spec"])), _cobs(obs), _cobs(obs["structural"]))
     if k == "history":
         return "(CaseHistory %s %s %s)" % (G.cschema(G.build(case["spec"])), ser.clist(case["ops"], _cop),
                                            ser.clist(obs["steps"], _cstep))
@@ -562,7 +566,8 @@ def to_coq(case, obs):
 def show_expr(case, obs):
     k = case["kind"]
     if k == "schema":
-        return "model_C13 %s" % G.cschema(G.build(case["spec"]))
+        t = G.cschema(G.build(case["spec"]))
+        return "(model_C13 %s, validate_structural %s)" % (t, t)
     if k == "history":
         return "run (initial %s) %s" % (G.cschema(G.build(case["spec"])), ser.clist(case["ops"], _cop))
     if k == "subtype":
@@ -615,8 +620,8 @@ def classify(case, obs):
 
 
 def _all_errors(obs):
-    if "errors" in obs:
-        return obs["errors"]
+    if "errors" in obs or "structural" in obs:
+        return obs.get("errors", []) + obs.get("structural", {}).get("errors", [])
     out = []
     for st in obs.get("steps", []):
         if st[0] in ("invalid", "direct_invalid"):
@@ -624,9 +629,21 @@ def _all_errors(obs):
     return out
 
 
+RESOLVER_LABELS = ("LResMissing", "LResPosOnly", "LResNeedsDefault", "LResPositional", "LResExtraRequired")
+
+
 def direct_checks(case, obs):
     out = []
     k = case["kind"]
+    st = obs.get("structural")
+    if st is not None:
+        if "exc" in st:
+            return [("raises-only-schema-errors (structural mode): %s %s" % (st["exc"], st.get("msg", "")[:80]), None)]
+        # structural mode = default mode minus the resolver-signature errors (C13_structural_mode)
+        if "exc" not in obs:
+            want = sorted(e for e in obs.get("errors", []) if e[0] not in RESOLVER_LABELS)
+            if sorted(st.get("errors", [])) != want:
+                out.append(("structural-mode-is-default-mode-minus-resolver-rule", None))
     if "exc" in obs:
         return [("raises-only-schema-errors: %s %s" % (obs["exc"], obs.get("msg", "")[:80]), None)]
     for e in _all_errors(obs):
